@@ -2176,12 +2176,12 @@ def eqn2_helpers(e, bitslice=False, widening=False):
             return composer(
                 [e.op(e.l[i : i + 1], e.r[i : i + 1]) for i in range(e.size)]
             )
-        elif bitslice and e.op.symbol in (OP_LSL):
+        elif bitslice and e.op.symbol == OP_LSL:
             return composer(
                 [bit0] * e.r.value
                 + [e.l[i : i + 1] for i in range(0, e.size - e.r.value)]
             )
-        elif bitslice and e.op.symbol in (OP_LSR):
+        elif bitslice and e.op.symbol == OP_LSR:
             return composer(
                 [e.l[i : i + 1] for i in range(e.r.value, e.size)] + [bit0] * e.r.value
             )
